@@ -305,8 +305,9 @@ class Server(object):
         burst that is being written now (so no answer to it can have been
         written before the client sees what follows)."""
         sent_at = getattr(app, 'plugin_sent_at', {})
-        return all(sent_at.get(k) == self.sim.now
-                   for k, v in app.plugin_outstanding.items() if v > 0)
+        return all(t == self.sim.now
+                   for k, v in app.plugin_outstanding.items() if v > 0
+                   for t in sent_at.get(k, [None])[-v:])
 
     def _plugins_pending(self, app):
         skip = app.beh.get('no_wait_plugins') or ()
@@ -395,7 +396,8 @@ class Server(object):
                     app.plugin_outstanding.get(mid, 0) + 1
                 if not hasattr(app, 'plugin_sent_at'):
                     app.plugin_sent_at = {}
-                app.plugin_sent_at[mid] = self.sim.now
+                # (a message id may be used more than once)
+                app.plugin_sent_at.setdefault(mid, []).append(self.sim.now)
                 self._send(app, ids['cb.login.plugin_request'],
                            varint(mid) + string(channel) +
                            bytes.fromhex(data_hex), 'plugin-request', mid)
